@@ -9,7 +9,7 @@ RULE = ("bases: generated programs (token boundaries known by construction) and 
         "the tokenizer hook). variants: whitespace (SP, TAB, CR, LF, CRLF, random strings) inserted at every token boundary incl. before the first and "
         "after the last token, existing whitespace replaced, 1-3 redundant parenthesis pairs around every sub-expression. distinct class = (variant kind, "
         "whitespace kind or node kind, kinds of the neighbouring tokens)")
-WSK = [" ", "\t", "\r", "\n", "\r\n", "  ", " \t\r\n ", "\n\n\t"]
+WSK = [" ", "\t", "\r", "\n", "\r\n", "  ", " \t\r\n ", "\n\n\t", " " * 15, " " * 16, " " * 17, " " * 32, " " * 33, "\t" * 16, "\n" * 16, " " * 64, " " * 255, " " * 256, "\r\n" * 8, " " * 7, " " * 8, " " * 9]
 
 
 def tok_kind(t):
@@ -59,7 +59,7 @@ def variants_generated(rnd, tree):
     if len(nodes) > 25:
         nodes = rnd.sample(nodes, 25)
     for nd in nodes:
-        k = rnd.randint(1, 3)
+        k = rnd.randint(1, 3) if rnd.random() < 0.93 else rnd.choice([16, 63, 64, 65, 127, 128, 129, 200])
         text = ref.Renderer(wrap={id(nd): k}).render(tree)
         out.append(("paren", "paren:%d:%s" % (k, nd[0] if nd[0] not in ("bin", "un", "post") else nd[0] + " " + (nd[1] if nd[0] != "post" else nd[2])), text))
     return out
